@@ -269,6 +269,7 @@ type upRes struct {
 	t      *track
 	k      int // -1 init, 0..2 media
 	status int
+	body   string // start of the response body ("" after a panic caught by the router's Recoverer)
 	stored bool
 }
 
@@ -355,7 +356,10 @@ func (r *run) upload(t *track, k int) upRes {
 	}
 	rr := httptest.NewRecorder()
 	r.router.ServeHTTP(rr, req)
-	res := upRes{t: t, k: k, status: rr.Code}
+	res := upRes{t: t, k: k, status: rr.Code, body: strings.TrimSpace(rr.Body.String())}
+	if len(res.body) > 40 {
+		res.body = res.body[:40]
+	}
 	// independent look at the storage: the uploaded bytes under the upload's own track directory
 	stored := "init_org" + t.Ext
 	if k >= 0 {
@@ -378,7 +382,7 @@ func (r *run) emitUp(u upRes) {
 	if u.k >= 0 {
 		seg = "media"
 	}
-	r.w.Emit(tr.E{"ev": "up", "ch": u.t.Ch, "tr": u.t.Tr, "seg": seg, "k": u.k, "status": u.status, "stored": u.stored})
+	r.w.Emit(tr.E{"ev": "up", "ch": u.t.Ch, "tr": u.t.Tr, "seg": seg, "k": u.k, "status": u.status, "body": u.body, "stored": u.stored})
 }
 
 // quiesce waits until the channel goroutines have processed `want` complete segments.
@@ -714,7 +718,7 @@ func (d *driver) header(sc *scenario, extra tr.E) error {
 	return nil
 }
 
-// footer: agree = yes | no | na | aborted (does the real run show what the explorer predicts; never a verdict)
+// footer: agree = yes | fixed | no | na | aborted (does the real run show what the explorer predicts; never a verdict)
 func (d *driver) footer(r *run, nOK int64, agree string) {
 	q := r.quiesce(nOK)
 	created := map[string]int{}
@@ -840,7 +844,10 @@ func (d *driver) replay(g *genLine, variant int) error {
 			same = same && failed[f]
 		}
 		agree = "yes"
-		if !same {
+		if !same && cnt("chA") <= 1 && cnt("chB") <= 1 && len(failed) == 0 {
+			// what the explorer predicts with Fixed = TRUE (one object per name, every media upload accepted)
+			agree = "fixed"
+		} else if !same {
 			agree = fmt.Sprintf("no: model created %d/%d fail %v; code created %d/%d fail %v", g.CreatedA, g.CreatedB, g.Fail,
 				cnt("chA"), cnt("chB"), failed)
 		}
